@@ -1,0 +1,79 @@
+// Copyright 2026 The Cockroach Authors.
+//
+// Licensed under the Apache License, Version 2.0 (the "License");
+// you may not use this file except in compliance with the License.
+// You may obtain a copy of the License at
+//
+//     http://www.apache.org/licenses/LICENSE-2.0
+//
+// Unless required by applicable law or agreed to in writing, software
+// distributed under the License is distributed on an "AS IS" BASIS,
+// WITHOUT WARRANTIES OR CONDITIONS OF ANY KIND, either express or
+// implied. See the License for the specific language governing
+// permissions and limitations under the License.
+
+//go:build verif
+// +build verif
+
+package rfmt
+
+import (
+	origFmt "fmt"
+	"reflect"
+	"sync/atomic"
+)
+
+// This file is only compiled with the "verif" build tag. It gives
+// external verification harnesses access to process-global
+// configuration and to the printer pool.
+
+var verifPoolNews int64
+
+func init() {
+	ppFree.New = func() interface{} {
+		atomic.AddInt64(&verifPoolNews, 1)
+		return new(pp)
+	}
+}
+
+// VerifResetSafeTypes empties the registry of safe types.
+func VerifResetSafeTypes() {
+	safeTypeRegistry = map[reflect.Type]bool{}
+}
+
+// VerifPoolNews returns how many printers were newly allocated
+// (as opposed to recycled from the pool) so far.
+func VerifPoolNews() int64 {
+	return atomic.LoadInt64(&verifPoolNews)
+}
+
+// VerifDrainPool removes printers from the pool visible to the
+// calling goroutine until the pool has to allocate a new one. It
+// returns the number of recycled printers that were discarded.
+func VerifDrainPool() (discarded int) {
+	for i := 0; i < 1<<16; i++ {
+		before := atomic.LoadInt64(&verifPoolNews)
+		_ = ppFree.Get()
+		if atomic.LoadInt64(&verifPoolNews) != before {
+			return discarded
+		}
+		discarded++
+	}
+	return discarded
+}
+
+// VerifPoolInspect takes one printer out of the pool, describes the
+// per-call state it carries, and puts it back. The second result is
+// false if the pool had to allocate a new printer.
+func VerifPoolInspect() (desc string, recycled bool) {
+	before := atomic.LoadInt64(&verifPoolNews)
+	p := ppFree.Get().(*pp)
+	recycled = atomic.LoadInt64(&verifPoolNews) == before
+	st := p.buf.VerifState()
+	desc = origFmt.Sprintf(
+		"override=%d arg=%v value=%v erroring=%v panicking=%v wrapErrs=%v wrappedErr=%v buf.mode=%d buf.open=%v buf.valid=%d buf.len=%d",
+		p.override, p.arg != nil, p.value.IsValid(), p.erroring, p.panicking, p.wrapErrs,
+		p.wrappedErr != nil, st.Mode, st.MarkerOpen, st.ValidUntil, st.Len)
+	ppFree.Put(p)
+	return desc, recycled
+}
